@@ -150,3 +150,7 @@ Example accept_example :
   accept true true {| d_pl := 16384; d_npb := 40; d_single := 0;
     d_files := [{| dlen := 20000; dpadding := false |}; {| dlen := 12768; dpadding := true |}] |} <> None.
 Proof. vm_compute. discriminate. Qed.
+
+(* an accepted document is never nested deeper than the limit: the decoder's recursion is bounded *)
+Lemma accepted_nesting_bounded w n k : run_nesting [w; n; k] = [1] -> nesting_levels w n <= max_nesting.
+Proof. cbn [run_nesting]. destruct (Z.leb_spec (nesting_levels w n) max_nesting); [auto|discriminate]. Qed.
